@@ -80,7 +80,7 @@ type shadow struct {
 	fired    int
 	nextOrig []byte
 	fresh    bool // a creation is in progress: the next unknown-or-stale address is a new buffer
-	stray    int // calls on a page that is not mapped any more (use after free / double free)
+	stray    int  // calls on a page that is not mapped any more (use after free / double free)
 }
 
 var errInjected = errors.New("injected fault")
@@ -656,8 +656,10 @@ func (w *world) exec(line string) {
 			if s != nil && s.page != nil {
 				pg = s.page
 			}
-			if f[0] == "new" || f[0] == "rand" || f[0] == "close" {
-				// the memguard library changes protection / mapping without going through the interface
+			if (f[0] == "new" || f[0] == "rand") && o.res != "ok" {
+				// a failed memguard creation: the library may have changed the protection without going
+				// through the interface (Freeze / Melt), so ask the kernel (a successful creation ends in
+				// our own Protect(NoAccess); a successful Close is the library's Destroy: page forgotten)
 				pg.refresh()
 			}
 			o.pg = pageStr(pg)
